@@ -65,7 +65,9 @@ def _op(rng, st):
     if k == 'removesingleton':
         return ['removesingleton', rng.choice([None, None, rng.choice(names)])]
     if k == 'insertdim':
-        return ['insertdim', rng.choice(['newd', 'extra']), rng.choice([1, 1, 2]), rng.random() < 0.8,
+        # a new name, or the name of an existing dimension (the file's own, possibly unlimited, axis added to the variables
+        # that lack it: newonly=True exists for that; the length asked for is then ignored)
+        return ['insertdim', rng.choice(['newd', 'extra'] + (names if rng.random() < 0.35 else [])), rng.choice([1, 1, 2]), rng.random() < 0.8,
                 rng.random() < 0.3, rng.choice([None, None, rng.choice(names)]), rng.choice([None, None, rng.choice(names)])]
     if k == 'reorder':
         order = list(names)
